@@ -469,7 +469,7 @@ class Parser:
         var_funct: assign_stmt | funct_call_stmt
         """
         first_token: Token = self.current_token
-        first_var: Expression = self._parse_var()
+        first_var: Expression = self._parse_var(in_statement=True)
         if self.current_token.type in (TokenType.COMMA, TokenType.ASSIGN):
             return self._parse_assignment(first_token, first_var)
         if isinstance(first_var, ExpFunctionCall):
@@ -497,7 +497,10 @@ class Parser:
         self._add_hint("assignment", "variables")
         while self.current_token.type == TokenType.COMMA:
             self._eat_token()
-            variables.append(self._parse_var())
+            variables.append(self._parse_var(in_statement=True))
+        for variable in variables:
+            if not isinstance(variable, (Name, Index, NamedIndex)):
+                self._error("Cannot assign to this expression", variable.token)
         self._switch_hint("expressions")
         self._eat_token(TokenType.ASSIGN)
         expressions: list[Expression] = self._parse_exp_list()
@@ -734,14 +737,18 @@ class Parser:
                 break
         return names
 
-    def _parse_var(self) -> Expression:
+    def _parse_var(self, in_statement: bool = False) -> Expression:
         """
         Parse a variable. Might be either a Variable, function call, method invocation, index, named index,
         or any other expression
 
         var: Name | L_PAREN exp R_PAREN
+
+        :param in_statement: the variable starts a statement or is an assignment target, where a bare
+            bracketed expression is not allowed
         """
         var: Expression
+        bracketed: Optional[Expression] = None
         if self.current_token.type == TokenType.NAME:
             self._add_hint("named var", "name")
             var = self.__eat_name()
@@ -750,9 +757,12 @@ class Parser:
             self._eat_token()
             var = self._parse_exp()
             self._eat_token(TokenType.R_PAREN)
+            bracketed = var
         else:
             self._error("Expected a variable", self.current_token)
         var = self._parse_or_ignore_var_terminal(var)
+        if in_statement and var is bracketed:
+            self._error("Unexpected bracketed expression", self.current_token)
         self._remove_hint()
         return var
 
